@@ -12,7 +12,7 @@ EXPLANATION = ('The height map has independent symbolic entries (field-level whe
                'windows are symbolic arrays; named windows are exact. Parseval: sum(psd) df_x df_y == sum((h w)^2)/sum(w^2) through the DFT '
                'definition; frequency axes; band-limited RMS: additivity in quadrature over adjacent bands, monotonicity, full band, with band '
                'edges placed in every gap between adjacent radial frequency-grid values (decided symbolically since the grid scales with 1/dx).')
-BOUNDS = {'quick': 'PSD shapes in {2..4}^2 incl. non-square with user / hann / welch / automatic windows; band-limited RMS on 2x2, 2x3, 3x3 maps; both numpy namespaces',
+BOUNDS = {'quick': 'PSD shapes in {2..4}^2 incl. non-square with user / hann / welch / automatic windows; band-limited RMS on 2x2, 2x3, 3x3 maps; both numpy namespaces; PSD frequency axes after an earlier synthesis with the same sampling (3 and 4 samples)',
           'thorough': 'PSD shapes up to 5x5; band-limited RMS up to 4x4'}
 OUTSIDE = 'fit_psd (optimiser); the random-phase synthesis inside synthesize_surface_from_psd (replaced by an arbitrary surface: masking and rescaling are checked); the "within the weight of the outermost samples" tolerance is checked as the exact trapezoid-rule identity'
 NDERIVED = 80
